@@ -51,7 +51,6 @@ impl Wake for Flag {
 
 #[derive(Debug, Clone, Copy, PartialEq, Eq, Hash, PartialOrd, Ord)]
 enum Kind {
-    Handshake,
     Writer,
     Reader,
     OpenWait,
@@ -69,7 +68,6 @@ enum Kind {
 impl Kind {
     fn name(self) -> &'static str {
         match self {
-            Kind::Handshake => "handshake",
             Kind::Writer => "write",
             Kind::Reader => "read",
             Kind::OpenWait => "open_wait",
@@ -209,8 +207,9 @@ async fn yield_now() {
 }
 
 thread_local! {
-    /// set once the close has been issued: pacing sleeps stop, so that no actor is waiting on a timer of
-    /// its own when the "every future completed" rule is evaluated
+    /// set once the close has been issued: pacing stops and pacing sleeps in flight end at the next poll, so
+    /// that no actor is waiting on a timer of its own when the "every future completed" rule is evaluated
+    /// (closed() resolves as soon as the connection error is set, there is no drain period to hide behind)
     static NO_PACE: Cell<bool> = const { Cell::new(false) };
 }
 
@@ -227,7 +226,11 @@ async fn pace(p: Pace, k: usize) {
         }
         Pace::Sleep(n) => {
             if k % (n.max(1) as usize) == 0 {
-                compio_runtime::time::sleep(Duration::from_micros(300)).await
+                // interruptible: the harness re-polls every actor when it issues the close, and a pacing sleep
+                // ends at that poll.  An actor is therefore never waiting on a timer of its own (something the
+                // connection cannot and need not wake) when "every future of this side is complete" is judged.
+                let mut sleep = std::pin::pin!(compio_runtime::time::sleep(Duration::from_micros(300)));
+                std::future::poll_fn(|cx| if NO_PACE.with(|c| c.get()) { Poll::Ready(()) } else { sleep.as_mut().poll(cx) }).await
             }
         }
     }
@@ -377,13 +380,6 @@ async fn read_payload(recv: &mut RecvStream, want: &[u8], ops: &[ROp], p: Pace, 
         return Err(End::Bad("stream/early-eof".into(), format!("end of stream after {off} of {} bytes", want.len())));
     }
     Ok(())
-}
-
-fn end_of(r: Result<(), End>) -> End {
-    match r {
-        Ok(()) => End::Done,
-        Err(e) => e,
-    }
 }
 
 /// the side that opens stream `i`
@@ -1023,6 +1019,10 @@ async fn run_case(case: QCase, pems: &Pems) -> Verdict {
                         }
                         ctx.closed_seen.set(true);
                         NO_PACE.with(|c| c.set(true));
+                        // one poll of every actor (redundant for all but those inside a pacing sleep, see `pace`)
+                        for a in actors.iter() {
+                            a.flag.set.store(true, Ordering::SeqCst);
+                        }
                         st = St::Closing;
                         progressed = true;
                     }
